@@ -123,7 +123,7 @@ func canonShapeOnce(s string) string {
 			}
 		}
 		if isWordStart(s, i) {
-			for _, kw := range []string{"match(", "if(", "not(", "slice.IsNotEmpty(", "slice.Collect("} {
+			for _, kw := range []string{"smatch(", "match(", "if(", "not(", "slice.IsNotEmpty(", "slice.Collect("} {
 				if strings.HasPrefix(s[i:], kw) {
 					open := i + len(kw) - 1
 					cl := matchingClose(s, open)
@@ -315,6 +315,44 @@ func rebuild(kw, inner string) string {
 			return "slice.Concat(slice.Map(" + ps[0] + "," + ps[1] + "))"
 		}
 		return kw + inner + ")"
+	case "smatch(":
+		// a string match with single, distinct literal patterns and a default is the if/elif chain of equality
+		// tests in arm order (at most one pattern applies; the default is taken when every comparison is false)
+		parts := splitTop(inner, ';')
+		if len(parts) < 3 {
+			return kw + inner + ")"
+		}
+		scr := strings.TrimSpace(parts[0])
+		type sarm struct{ lit, body string }
+		var arms []sarm
+		seen := map[string]bool{}
+		for _, a := range parts[1:] {
+			a = strings.TrimSpace(a)
+			k := strings.Index(a, " -> ")
+			if k < 0 {
+				return kw + inner + ")"
+			}
+			lab := a[:k]
+			if lab != "_" && !(strings.HasPrefix(lab, `"`) && skipQuoted(lab, 0) == len(lab)) {
+				return kw + inner + ")"
+			}
+			if seen[lab] {
+				return kw + inner + ")"
+			}
+			seen[lab] = true
+			arms = append(arms, sarm{lab, a[k+4:]})
+		}
+		if arms[len(arms)-1].lit != "_" || len(arms) < 2 {
+			return kw + inner + ")"
+		}
+		res := arms[len(arms)-1].body
+		for k := len(arms) - 2; k >= 0; k-- {
+			if arms[k].lit == "_" {
+				return kw + inner + ")"
+			}
+			res = rebuild("if(", rebuildInfix(scr+" eq "+arms[k].lit)+", "+arms[k].body+", "+res)
+		}
+		return res
 	case "match(":
 		parts := splitTop(inner, ';')
 		if len(parts) < 3 {
